@@ -21,7 +21,7 @@ CLAIMED = {
             "seeded deterministic simulation: start-event invariant against the run's own history"),
 }
 
-PENDING = {'C20': 'not claimed yet: the check for this property is still being built (see DESIGN.md build order)'}
+PENDING = {}
 
 CLAIMED["C10"] = ("travsim", "3.13", "history check against an executable model of the documented retry/stop/replay/verdict rules, with distinct-identifier and own-result (serial-tagged results) checks, valid and invalid settings, replayed jobs across crash-restart epochs",
                   "seeded deterministic simulation with fault injection: refinement against an executable retry/replay reference model")
